@@ -899,7 +899,8 @@ def _run(sc, S, obs):
     # 'falsy': an object that is enabled (not None) but falsy — a list the workers are meant to see
     FALSY = FalsyShared()
     shared_obj = FALSY if shared == 'falsy' else {'shared': 42} if shared else None
-    calls = obs['calls'] = []       # (fkind, role, token, wid_seen, idx, t_enter, t_exit, ok_convention, state_ok, shared_ok)
+    calls = obs['calls'] = []       # (op, fkind, role, token, wid_seen, idx, t_enter, t_exit, ok_convention, state_ok, shared_ok, op at call time,
+    #                                  how many calls the state object has seen including this one)
     excs_raised = obs['raised'] = []
     # injections
     for inj in sc.get('inject', []):
@@ -1023,7 +1024,7 @@ def _run(sc, S, obs):
             else:
                 idx, conv = idx_of_call(ekind, rest, kwargs)
             tok = token()
-            rec = [opi, 'task', S.cur.role, tok, wid, idx, round(t0, 6), None, conv, state_check(state, tok), shared_ok, now_op[0]]
+            rec = [opi, 'task', S.cur.role, tok, wid, idx, round(t0, 6), None, conv, state_check(state, tok), shared_ok, now_op[0], (state.get('__n') if isinstance(state, dict) else None)]
             calls.append(rec)
             S.rec('user', 'task', idx)
             S.cur.in_user = 1
@@ -1060,7 +1061,7 @@ def _run(sc, S, obs):
             op, opi, cfg, ekind, fail, numpy_in = ctx()
             wid, shared_ok, state, rest = extras_check(args, cfg)
             tok = token()
-            rec = [opi, 'init', S.cur.role, tok, wid, None, round(S.now - S.t0, 6), None, len(rest) == 0, state_check(state, tok), shared_ok, now_op[0]]
+            rec = [opi, 'init', S.cur.role, tok, wid, None, round(S.now - S.t0, 6), None, len(rest) == 0, state_check(state, tok), shared_ok, now_op[0], (state.get('__n') if isinstance(state, dict) else None)]
             calls.append(rec)
             S.rec('user', 'init', None)
             d = dur_of(op.get('init_dur'), int(S.cur.role.split('-')[-1]) if '-' in S.cur.role else 0)
@@ -1080,7 +1081,7 @@ def _run(sc, S, obs):
             op, opi, cfg, ekind, fail, numpy_in = ctx()
             wid, shared_ok, state, rest = extras_check(args, cfg)
             tok = token()
-            rec = [opi, 'exit', S.cur.role, tok, wid, None, round(S.now - S.t0, 6), None, len(rest) == 0, state_check(state, tok), shared_ok, now_op[0]]
+            rec = [opi, 'exit', S.cur.role, tok, wid, None, round(S.now - S.t0, 6), None, len(rest) == 0, state_check(state, tok), shared_ok, now_op[0], (state.get('__n') if isinstance(state, dict) else None)]
             calls.append(rec)
             S.rec('user', 'exit', None)
             d = dur_of(op.get('exit_dur'), int(S.cur.role.split('-')[-1]) if '-' in S.cur.role else 0)
